@@ -46,6 +46,7 @@ class ScriptedRandom:
         self.script = list(script) if script is not None else None
         self.pos = 0
         self.log = []
+        self.alts = []  # number of alternatives at each choice
         self.max_alternatives = 0
 
     def choice(self, seq):
@@ -56,6 +57,7 @@ class ScriptedRandom:
         else:
             i = self.rng.randrange(n)
         self.log.append(i)
+        self.alts.append(n)
         if n > self.max_alternatives:
             self.max_alternatives = n
         return seq[i]
